@@ -289,11 +289,13 @@ def c06(prop, tier):
     jobs.append(Job("sparse-U32", "./constraint", ["prelude_sym.go", "prelude_elem_sym.go", "c06_sparse.go"], {"PKGNAME": "constraint", "ELEMTYPE": "U32", "ELEMFR": fr_pkg("tinyfield")}))
     if tier != "quick":
         jobs.append(Job("sparse-U64", "./constraint", ["prelude_sym.go", "prelude_elem_sym.go", "c06_sparse.go"], {"PKGNAME": "constraint", "ELEMTYPE": "U64", "ELEMFR": fr_pkg("bn254")}))
+    jobs.append(Job("levels", "./constraint", ["prelude_sym.go", "c06_levels.go"], {"PKGNAME": "constraint"}))
+    jobs.append(Job("add-instruction", "./constraint", ["prelude_sym.go", "c06_addinst.go"], {"PKGNAME": "constraint"}))
     return run_property(prop, tier, jobs,
                         title="C06: one-step inductive harnesses on the solver kernels from an arbitrary pre-state (symbolic values, solved flags, coefficients, wire ids).",
                         design_ref="DESIGN.md §3 C06",
                         assumptions=["gnark-crypto field arithmetic implements a field (stubbed by the algebra model)", "frontend contract: the wire a row/gate defines occurs once, with a non-zero (static) coefficient",
-                                     "level-builder contract: at most one unsolved wire per row (checked separately)"],
+                                     "level-builder contract: at most one unsolved wire per sparse gate; an R1C lists each unsolved wire once"],
                         outside=["worker pool scheduling of run()", "hint functions", "GKR hints", "rows with more than 2 terms per linear expression"])
 
 
